@@ -7266,6 +7266,14 @@ class _RoundShape(Shape):
             self.cx = self.cx.value(relative_length=width, **kwargs)
         if isinstance(self.cy, Length):
             self.cy = self.cy.value(relative_length=height, **kwargs)
+        if (
+            isinstance(self, Circle)
+            and isinstance(width, (int, float))
+            and isinstance(height, (int, float))
+        ):
+            # The one radius of a circle is neither a width nor a height: a percentage refers to the
+            # normalized diagonal of the viewport (SVG 1.1 7.10), and the circle stays round.
+            width = height = sqrt((width * width + height * height) / 2.0)
         if isinstance(self.rx, Length):
             self.rx = self.rx.value(relative_length=width, **kwargs)
         if isinstance(self.ry, Length):
